@@ -5,6 +5,8 @@
 package verifhook
 
 import (
+	"time"
+
 	"github.com/linkedin/Burrow/core/internal/evaluator"
 	"github.com/linkedin/Burrow/core/protocol"
 )
@@ -18,3 +20,31 @@ func CalculatePartitionStatus(offsets []*protocol.ConsumerOffset, brokerOffsets 
 func EvaluatePartitionStatus(partition *protocol.ConsumerPartition, minimumComplete float32, allowedLag uint64) *protocol.PartitionStatus {
 	return evaluator.VerifEvaluatePartitionStatus(partition, minimumComplete, allowedLag)
 }
+
+// Evaluator is a handle on a real evaluator.CachingEvaluator.
+type Evaluator struct {
+	m *evaluator.CachingEvaluator
+}
+
+// NewEvaluator builds the evaluator module (with its cache) without starting its main loop.
+func NewEvaluator(app *protocol.ApplicationContext, expireCache int, minimumComplete float32, allowedLag uint64) (*Evaluator, error) {
+	m, err := evaluator.VerifNewCachingEvaluator(app, expireCache, minimumComplete, allowedLag)
+	if err != nil {
+		return nil, err
+	}
+	return &Evaluator{m: m}, nil
+}
+
+// GetConsumerStatus is getConsumerStatus, synchronously.
+func (e *Evaluator) GetConsumerStatus(request *protocol.EvaluatorRequest) { e.m.VerifGetConsumerStatus(request) }
+
+// Evaluate is evaluateConsumerStatus.
+func (e *Evaluator) Evaluate(clusterAndConsumer string) (interface{}, error) {
+	return e.m.VerifEvaluateConsumerStatus(clusterAndConsumer)
+}
+
+// AgeCache moves cache expiries back by d.
+func (e *Evaluator) AgeCache(d time.Duration) { e.m.VerifAgeCache(d) }
+
+// Module returns the underlying module.
+func (e *Evaluator) Module() *evaluator.CachingEvaluator { return e.m }
